@@ -144,6 +144,7 @@ fn growth_case<const M: usize>(rep: &mut Report, rng: &mut Rng, volume: usize, d
     let mut big_requests = 0usize;
     let mut max_align = 1usize;
     let mut n_req = 0usize;
+    let mut reqs: Vec<(usize, usize)> = Vec::new();
     while occupied_req < volume {
         let size = match dist {
             0 => rng.range(1, 16),
@@ -199,7 +200,11 @@ fn growth_case<const M: usize>(rep: &mut Report, rng: &mut Rng, volume: usize, d
         let _ = ev;
         occupied_req += size;
         n_req += 1;
+        if reqs.len() < 200_000 {
+            reqs.push((size, align));
+        }
     }
+    let free_sizes: Vec<usize> = s.chunks.iter().map(|c| c.size).collect();
     let obs = s.observe();
     let occupied: usize = obs.chunks.iter().map(|c| c.1).sum();
     let held = s.held_usable();
@@ -223,6 +228,50 @@ fn growth_case<const M: usize>(rep: &mut Report, rng: &mut Rng, volume: usize, d
     s.last_obs = None;
     s.after_op(rep, OpKind::Alloc, &[]);
     s.drop_arena(rep);
+    // the same requests against an allocator that refuses every block larger than one of the chunk sizes
+    // just seen: growth goes on with chunks of that size ("at least as large as the last" while a
+    // chunk of the last size is still granted); requests that cannot fit such a chunk may fail
+    if free_sizes.len() >= 3 && cap0.is_none() {
+        let j = 1 + (hseed as usize >> 8) % (free_sizes.len() - 1);
+        let t = free_sizes[j];
+        Env { skew: (hseed % 3) as u8, junk: false, scribble: false, quarantine: false, cap: 256 << 20 }.apply(hseed);
+        rep.ctx = format!("C18 growth case volume={} dist={} M={} again with blocks above {} refused", volume, dist, M, t);
+        if let Some(mut s2) = Sim::<M>::new(hseed, rep, None, false) {
+            s2.verify_every = 1 << 30;
+            halloc::set_refuse(halloc::Refuse::Above(t));
+            let mut last = 0usize;
+            for &(size, align) in &reqs {
+                let before = s2.chunks.len();
+                s2.cur = format!("capped growth alloc({},{})", size, align);
+                s2.begin();
+                let r = s2.bump.try_alloc_layout(Layout::from_size_align(size, align).unwrap());
+                let _ = s2.end(rep, OpKind::Alloc);
+                if r.is_err() && size + align + 64 + s2.k <= t {
+                    rep.violate("C18", "C18/growth/request-failed-although-a-chunk-of-the-last-size-is-still-granted", format!("size {} align {} with blocks up to {} granted", size, align, t));
+                    break;
+                }
+                if s2.chunks.len() > before {
+                    let n = s2.chunks.len();
+                    let new = s2.chunks[n - 1].size;
+                    if new < last.min(t) && size + align + 64 + s2.k <= new.max(last) {
+                        rep.violate(
+                            "C18",
+                            "C18/growth/new-chunk-smaller-than-predecessor-although-an-equal-one-is-still-granted",
+                            format!("block of {} bytes after one of {} (blocks up to {} are granted; request {} align {})", new, last, t, size, align),
+                        );
+                        break;
+                    }
+                    last = last.max(new);
+                    rep.bump("c18.capped_growth_acquisitions");
+                }
+            }
+            halloc::set_refuse(halloc::Refuse::None);
+            s2.last_obs = None;
+            s2.after_op(rep, OpKind::Alloc, &[]);
+            s2.drop_arena(rep);
+            rep.bump("c18.capped_growth_cases");
+        }
+    }
 }
 
 fn run_m<const M: usize>(args: &Args, rep: &mut Report) {
@@ -649,9 +698,11 @@ fn vec_add<'b>(v: &mut BVec<'b, u64>, b: &'b Bump, way: usize, k: usize, next: &
             let at = v.len() / 2;
             let hi = (at + 1).min(v.len());
             let mut it = items;
-            // replace one element by k + 1 (or insert k into an empty vector)
-            it.push(*next);
-            *next += 1;
+            // replace one element by k + 1 (or insert k into an empty vector): net growth k
+            if hi > at {
+                it.push(*next);
+                *next += 1;
+            }
             let removed: Vec<u64> = v.splice(at..hi, it.into_iter().filter(|_| true)).collect();
             // net growth is k
             let _ = removed;
@@ -742,7 +793,7 @@ fn every_way_of_growing(args: &Args, rep: &mut Report, rng: &mut Rng) {
                 rep.ctx = format!("C18 every-way vec {} reserved {}", name, cap);
                 loop {
                     let room = c0 - v.len();
-                    let extra = if way == 7 { 1 } else { 0 };
+                    let extra = 0;
                     if room < 1 + extra {
                         break;
                     }
@@ -754,6 +805,16 @@ fn every_way_of_growing(args: &Args, rep: &mut Report, rng: &mut Rng) {
                     if v.as_ptr() != p0 || v.capacity() != c0 {
                         rep.violate("C18", format!("C18/vec<u64>/moved-within-reserved-capacity/{}", name), format!("capacity {} len {} after adding {}: buffer moved {} capacity now {}", c0, v.len(), k, v.as_ptr() != p0, v.capacity()));
                         break;
+                    }
+                }
+                // replacing r elements by r others needs no room at all, however full the vector is
+                if v.len() >= 2 && v.as_ptr() == p0 {
+                    let r = 1 + (next as usize) % (v.len() / 2);
+                    let at = (next as usize / 7) % (v.len() - r + 1);
+                    let items: Vec<u64> = (0..r as u64).map(|i| 900_000 + i).collect();
+                    let removed: Vec<u64> = if way % 2 == 0 { v.splice(at..at + r, items.into_iter()).collect() } else { v.splice(at..at + r, items.into_iter().filter(|_| true)).collect() };
+                    if removed.len() != r || v.as_ptr() != p0 || v.capacity() != c0 {
+                        rep.violate("C18", "C18/vec<u64>/moved-within-reserved-capacity/splice-same-length", format!("capacity {} len {}: replacing {} elements by {} moved the buffer {} capacity now {}", c0, v.len(), r, r, v.as_ptr() != p0, v.capacity()));
                     }
                 }
                 rep.bump("c18.every_way_reserved_cases");
